@@ -44,7 +44,7 @@ ASSUMPTIONS = [
 KINDS = ("supervised", "semi", "knn", "unsup", "unsup_prop")
 
 
-EXPECTED_PROBES = ['integer_typed_batch_predicted', 'irrelevant_public_call_between_predictions', 'training_identifiers_unlike_positions', 'non_contiguous_arrays', 'distance_matrix_unrelated_to_features', 'query_of_overflowing_magnitude', 'non_float64_features', 'index_arrays_passed_without_precomputed_distances', 'batch_longer_than_training_set', 'duplicates_inside_one_batch', 'model_', 'position_ge1_is_valid_training_index', 'query_equals_training_sample', 'query_raises_consistently', 'successful_predict_after_abort']
+EXPECTED_PROBES = ['model_object_refitted_mid_history', 'labels_beyond_int32', 'integer_typed_batch_predicted', 'irrelevant_public_call_between_predictions', 'training_identifiers_unlike_positions', 'non_contiguous_arrays', 'distance_matrix_unrelated_to_features', 'query_of_overflowing_magnitude', 'non_float64_features', 'index_arrays_passed_without_precomputed_distances', 'batch_longer_than_training_set', 'duplicates_inside_one_batch', 'model_', 'position_ge1_is_valid_training_index', 'query_equals_training_sample', 'query_raises_consistently', 'successful_predict_after_abort']
 
 
 def arms(tier):
@@ -82,9 +82,13 @@ def gen_case(rng, arm, tier, k=0):
         # the caller passes index arrays although distances are computed on the fly: they only
         # name the samples and must not influence any label (small values collide with training idx)
         case["query_idx"] = [rng.randrange(0, n + 2) for _ in range(20)]
+    if arm == "pre" and rng.random() < 0.3:
+        case["pre_order"] = "f"
+    if arm != "pre" and kind != "knn" and rng.random() < 0.06:
+        case["big_labels"] = True  # (KNN is left out: opf_accuracy allocates a table of max(label) rows)
     if arm != "pre" and rng.random() < 0.2:
         # the training samples carry identifiers of their own (a permutation, or values beyond n)
-        tid = list(range(n + 4)) if rng.random() < 0.5 else [3 * i + 1 for i in range(n + 4)]
+        tid = rng.choice((list(range(n + 4)), [3 * i + 1 for i in range(n + 4)], [2**31 + 5 * i for i in range(n + 4)]))
         rng.shuffle(tid)
         case["train_ids"] = tid
     if kind == "semi":
@@ -170,6 +174,19 @@ def gen_case(rng, arm, tier, k=0):
             ops.append(["knob", rng.choice(("max_k", "min_k", "distance_same", "mark_nodes", "accuracy")), rng.randint(1, 9)])
         else:
             ops.append(["save"])
+    if arm != "pre" and rng.random() < 0.25 and len(ops) > 3:
+        # the same model object is fitted again on other data half-way through the history
+        order = list(range(n))
+        rng.shuffle(order)
+        X2 = [list(case["X"][o]) for o in order]
+        Y2 = [case["Y"][o] for o in order]
+        for _ in range(rng.randint(1, 3)):
+            i_ = rng.randrange(n)
+            X2[i_] = [v + rng.choice((-1.0, 1.0, 0.5)) if abs(v) < 1e9 else v for v in X2[i_]]
+            if style in ("positive", "prob", "zeros"):
+                X2[i_] = [abs(v) + 0.05 for v in X2[i_]]
+        case["X2"], case["Y2"] = X2, Y2
+        ops.insert(rng.randrange(2, len(ops)), ["refit"])
     case["ops"] = ops
     return case
 
@@ -213,9 +230,19 @@ def tarr(case, rows):
     return a
 
 
+BIG_LABELS = (2147483653, 7, 4000000011)  # legal class labels: any non-negative integer
+
+
+def lab(case, ys):
+    """The world's labels 0..K-1, or - with ``big_labels`` - mapped onto huge integers."""
+    if case.get("big_labels"):
+        return iarr([BIG_LABELS[y % 3] for y in ys])
+    return iarr(ys)
+
+
 def build_model(case, scratch=None):
     kind, metric = case["kind"], case["metric"]
-    X, Y = tarr(case, case["X"]), iarr(case["Y"])
+    X, Y = tarr(case, case["X"]), lab(case, case["Y"])
     n = len(case["X"])
     if n < 2 or (kind != "unsup" and len(set(case["Y"])) < 2) or sorted(set(case["Y"])) != list(range(max(case["Y"]) + 1)):
         raise OutOfDomain()
@@ -272,7 +299,8 @@ def build_model(case, scratch=None):
                 m.pre_distances = M
         else:
             m.pre_computed_distance = True
-            m.pre_distances = M
+            # the caller's matrix may be Fortran-ordered (e.g. filled column by column)
+            m.pre_distances = np.asfortranarray(M) if case.get("pre_order") == "f" else M
         I = iarr([len(rows) + i for i in range(n)]) if pool_first else iarr(list(range(n)))
     if not case["pre"] and case.get("train_ids") and kind in ("supervised", "unsup", "unsup_prop"):
         I = iarr(case["train_ids"][:n])
@@ -299,6 +327,41 @@ def build_model(case, scratch=None):
         if kind == "unsup_prop":
             m.propagate_labels()
     return m, rows
+
+
+def fit_existing(m, case):
+    """Fit an already used model object again (feature mode), with the same call shapes as build_model."""
+    kind = case["kind"]
+    X, Y = tarr(case, case["X"]), lab(case, case["Y"])
+    n = len(X)
+    I = None
+    if case.get("train_ids") and kind in ("supervised", "unsup", "unsup_prop"):
+        I = iarr(case["train_ids"][:n])
+    if kind == "supervised":
+        m.fit(X, Y, I)
+    elif kind == "semi":
+        XU = tarr(case, case["XU"]).reshape(len(case["XU"]), X.shape[1])
+        m.fit(X, Y, XU)
+    elif kind == "knn":
+        vi = [v % n for v in case["val_idx"]]
+        XV, YV = tarr(case, [case["X"][v] for v in vi]), iarr([case["Y"][v] for v in vi])
+        if case.get("train_ids"):
+            tid = case["train_ids"]
+            m.fit(X, Y, XV, YV, iarr(tid[:n]), iarr([tid[v] for v in vi]))
+        else:
+            m.fit(X, Y, XV, YV)
+    else:
+        m.fit(X, Y, I)
+        if kind == "unsup_prop":
+            m.propagate_labels()
+
+
+def second_world(case):
+    """The data of the refit: the same rows in another order, a few of them moved."""
+    X2, Y2 = case.get("X2"), case.get("Y2")
+    c2 = dict(case)
+    c2["X"], c2["Y"] = X2, Y2
+    return c2
 
 
 def do_predict(m, case, rows, batch):
@@ -364,8 +427,61 @@ def run_case(case):
                     raises[q] = type(exc).__name__
             return L.get(q)
 
+        def verify_history():
+            # ---- history check: every label ever returned for q equals the singleton reference
+            for k, pos, q, got_q, batch, after_abort in observed:
+                exp = ref(q)
+                if exp is None:
+                    bump(out.probes, "query_raises_consistently")
+                    continue
+                if got_q != exp:
+                    what = "label" if got_q[0] != exp[0] else "cluster"
+                    raise Stop(
+                        violation(
+                            "prediction-not-single-valued",
+                            "pool sample %d %r predicted as %r at position %d of batch %s (op #%d), but as %r when predicted alone by a pristine copy of the fitted model (%s, metric %s, n_train %d, best_k %s)"
+                            % (q, rows[q], got_q, pos, list(batch), k, exp, kind, case["metric"], n, best_k),
+                            what=what,
+                            position_nonzero=pos > 0,
+                            after_abort=after_abort,
+                            **facts,
+                        )
+                    )
+
         for k, op in enumerate(case["ops"]):
             kindop = op[0]
+            if kindop == "refit":
+                if case["pre"] or not case.get("X2"):
+                    continue
+                verify_history()  # everything observed so far belongs to the first fit
+                c2 = second_world(case)
+                # the k range is part of the object's configuration: earlier "knob" ops may have
+                # changed it, and a later fit legitimately uses the current values
+                if hasattr(m, "max_k"):
+                    if m.max_k > len(c2["X"]) - 1:
+                        continue  # outside the valid worlds (k <= n_train - 1)
+                    c2["max_k"] = int(m.max_k)
+                    if hasattr(m, "min_k"):
+                        c2["min_k"] = int(m.min_k)
+                try:
+                    ref_m, _ = build_model(c2)
+                except Exception:  # noqa: BLE001 - a second world the library cannot fit: leave it
+                    continue
+                out.steps += 1
+                try:
+                    fit_existing(m, c2)
+                except Exception as exc:  # noqa: BLE001
+                    lib_call("refit of a used model", _reraise, exc)
+                pristine = copy.deepcopy(ref_m)  # reference: a FRESH object fitted on the same data
+                L.clear()
+                raises.clear()
+                del observed[:]
+                positions.clear()
+                best_k = getattr(m.subgraph, "best_k", 0)
+                bump(out.probes, "model_object_refitted_mid_history")
+                log.add("refit")
+                norm.append(("refit",))
+                continue
             if kindop == "predict_int":
                 # an integer-typed batch of whole-number rows: a legal call whose own labels are not
                 # compared (other dtype, other arithmetic) but which must leave the model as it was
@@ -468,25 +584,7 @@ def run_case(case):
                 lib_call("save", m.save, os.path.join(scratch, "m.pkl"))
                 log.add("save")
                 norm.append(("save",))
-        # ---- history check: every label ever returned for q equals the singleton reference
-        for k, pos, q, got_q, batch, after_abort in observed:
-            exp = ref(q)
-            if exp is None:
-                bump(out.probes, "query_raises_consistently")
-                continue
-            if got_q != exp:
-                what = "label" if got_q[0] != exp[0] else "cluster"
-                raise Stop(
-                    violation(
-                        "prediction-not-single-valued",
-                        "pool sample %d %r predicted as %r at position %d of batch %s (op #%d), but as %r when predicted alone by a pristine copy of the fitted model (%s, metric %s, n_train %d, best_k %s)"
-                        % (q, rows[q], got_q, pos, list(batch), k, exp, kind, case["metric"], n, best_k),
-                        what=what,
-                        position_nonzero=pos > 0,
-                        after_abort=after_abort,
-                        **facts,
-                    )
-                )
+        verify_history()
         out.digest = log.hexdigest()
         out.hist = h64((kind, case["metric"], n, case["pre"], tuple(norm)))
         out.nontrivial = any(len(p) >= 2 for p in positions.values())
@@ -496,6 +594,8 @@ def run_case(case):
             bump(out.probes, "non_float64_features")
         if case.get("layout"):
             bump(out.probes, "non_contiguous_arrays")
+        if case.get("big_labels"):
+            bump(out.probes, "labels_beyond_int32")
         if case.get("train_ids") and not case["pre"]:
             bump(out.probes, "training_identifiers_unlike_positions")
         if case.get("free_matrix_seed") is not None:
